@@ -169,6 +169,13 @@ fn shift_index(shift: Option<DVec3>, width: DVec3) -> ([i64; 3], bool) {
             let mut r = [0i64; 3];
             let mut exact = true;
             for k in 0..3 {
+                if !width[k].is_finite() {
+                    // non-finite junk in the width of an unused axis: the only legitimate shift component there is zero
+                    if s[k] != 0.0 {
+                        exact = false;
+                    }
+                    continue;
+                }
                 let q = (s[k] / width[k]).round();
                 r[k] = q as i64;
                 // bitwise: the shift is exactly k * width
@@ -752,17 +759,21 @@ fn periodic_relations(inp: &LInput, emb: &Embedding, obs: &Observed, seed: u64, 
         rng ^= rng << 17;
         (rng >> 11) as f64 / (1u64 << 53) as f64
     };
-    for trial in 0..2 {
+    for trial in 0..3 {
         let mut t = DVec3::ZERO;
         for k in 0..inp.dim {
-            t[k] = if trial == 0 { (next() * 4.0).floor() * emb.h } else { (next() - 0.5) * 3.0 * width[k] };
+            t[k] = if trial != 1 { (next() * 4.0).floor() * emb.h } else { (next() - 0.5) * 3.0 * width[k] };
         }
+        // trial 2: generators that land on the lower wall of a periodic axis are put on the UPPER wall instead (anchor + width
+        // exactly: inside the closed box, distinct from the others modulo the period)
+        let upper = trial == 2;
         let moved: Vec<DVec3> = gens.iter().map(|g| {
             let mut p = *g + t;
             for k in 0..inp.dim {
                 let mut r = (p[k] - anchor[k]) % width[k];
                 if r < 0.0 { r += width[k]; }
                 if r >= width[k] { r = 0.0; }
+                if upper && r == 0.0 { r = width[k]; }
                 p[k] = anchor[k] + r;
             }
             p
